@@ -1,0 +1,12 @@
+//go:build verif
+
+package user
+
+// govc contracts for this package (see /verif/DESIGN.md). Comment-only.
+
+// The verdict is that of rsa.VerifyPKCS1v15 on the caller's signature: true exactly
+// when the library accepts it. (That the key argument is the embedded Mojang key is
+// not decided: the intervening library calls are un-contracted and havoc the globals.)
+//@ func VerifySignature(profilePubKey, signature) (res)
+//@   ensures res == rsa_ok()                                                         [@value]
+//@   ensures rsa_sig() == signature                                                  [@value]
